@@ -326,7 +326,7 @@ META_EXTRA = "ENGAGE (optional from optional: target ends in the source's engage
 META = (META[0] + " " + META_EXTRA, META[1])
 META = (META[0] + ' SIB (cv/ref-qualified overloads of one member agree); INITFORM.', META[1])
 
-META = (META[0] + ' REL evaluates optional and variant operators over a fourth element outcome, unordered (only != holds), because their operators are specified element-wise; TYPEDFUN (a comparison functor fixed to one template parameter is never applied to an operand declared with another; controls in fixtures/arith_pos.hpp); CONSTR (the requires-clause of optional::operator=(U&&), parsed as a boolean formula over the five standard atoms, implies the formula of [optional.assign]).', META[1])
+META = (META[0] + ' REL evaluates optional and variant operators over a fourth element outcome, unordered (only != holds), because their operators are specified element-wise; TYPEDFUN (a comparison functor fixed to one template parameter is never applied to an operand declared with another; controls in fixtures/arith_pos.hpp); CONSTR (the requires-clause of optional::operator=(U&&), parsed as a boolean formula over the five standard atoms, implies the formula of [optional.assign]); L5 over the assignment operators of variant / optional (a self-assignment does not destroy the value it copies; analysis shared with C03).', META[1])
 
 
 def run(chk, tier):
@@ -343,6 +343,19 @@ def run(chk, tier):
         chk.analysis_broken("TYPEDFUN: fewer than 10 two-type-parameter templates in optional / variant / expected (floor 10)")
     _ITY.typed_functor_control(chk, D)
     constr_rule(chk, db)
+    # L5 (shared with C03): a self-assignment does not destroy the value it is about to copy. Only the assignment operators of
+    # the single-slot owners variant / optional storage are analysed here; the full lifecycle analysis is property C03
+    from . import c03 as _c03
+    from ..rules import life as _L
+    _pdb = D.load("plain")
+    _sg = _L.slot_signatures(_pdb)
+    for _owner in [o for o in _c03.OWNERS if "variant" in o or "optional" in o]:
+        _state = _L.state_fields(_pdb, _owner)
+        if not _pdb.rec_by_q.get(_owner) or not _state:
+            continue
+        for _f in _L.member_functions(_pdb, _owner):
+            if _f.get("special") in ("copy_assign", "move_assign"):
+                _c03.analyse_function(chk, _pdb, _sg, _owner, _c03.OWNERS[_owner], _owner, _f, _state)
     nrel = rel.check(chk, db, ["_optional/optional.hpp", "_variant/variant.hpp", "_expected/unexpected.hpp"])
     if chk.rule_instances.get("REL", 0) < 22:      # operators found (an unmodelled body is UNKNOWN, not a lost subject)
         chk.analysis_broken("REL: only %d optional/variant operators modelled (floor 22)" % nrel)
